@@ -106,21 +106,21 @@ type timerHarness struct {
 	// requester and, concurrently, by firing handlers) atomic with
 	// respect to each other, so that "the previous timer with this id"
 	// is known exactly when a request is refused
-	opMu  sync.Mutex
-	mu    sync.Mutex
-	ts    *Timers
-	incs  []*incarnation
-	live  map[string]*incarnation // latest accepted incarnation per id
-	bad   string
-	ctx   context.Context
-	ctxs    [3]context.Context
-	cancels [3]context.CancelFunc
-	drops   int
-	v     *ev.Verdict
-	hreq  int
+	opMu     sync.Mutex
+	mu       sync.Mutex
+	ts       *Timers
+	incs     []*incarnation
+	live     map[string]*incarnation // latest accepted incarnation per id
+	bad      string
+	ctx      context.Context
+	ctxs     [3]context.Context
+	cancels  [3]context.CancelFunc
+	drops    int
+	v        *ev.Verdict
+	hreq     int
 	handlers int // firing handlers currently running
-	idReuse int
-	nearDue int
+	idReuse  int
+	nearDue  int
 }
 
 // fail records the first problem; callers hold h.mu.
